@@ -104,7 +104,7 @@ def random_case(ctx, n):
     rng = ctx.rng('random', n)
     mt = gen.gen_table(rng, 't', max_rows=8)
     conn = engine.connection([mt])
-    qg = gen.QueryGen(rng, max_depth=3, obj_keys=False)
+    qg = gen.QueryGen(rng, max_depth=3, obj_keys=False, subselects=0.08)
     hidden = 0
     if rng.random() < 0.4:
         q = qg.aggregate()
